@@ -876,3 +876,80 @@ pub proof fn lemma_prev_rewrite_keeps(kb: Seq<u8>, kb1: Seq<u8>, pm: PieceMgr, w
     assert(t.0.slots.dom().contains(ko));
 }
 } // verus!
+
+verus! {
+// ---- iteration order ------------------------------------------------------------------------------------------------
+/// number of entries in buckets [0, b)
+pub open spec fn upto(cs: Seq<Seq<nat>>, b: int) -> nat
+    decreases b
+{
+    if b <= 0 { 0 } else { upto(cs, b - 1) + cs[b - 1].len() }
+}
+pub proof fn lemma_upto_total(cs: Seq<Seq<nat>>)
+    ensures upto(cs, cs.len() as int) == total(cs)
+    decreases cs.len()
+{
+    if cs.len() > 0 {
+        lemma_upto_total(cs.drop_last());
+        lemma_upto_prefix(cs, cs.drop_last(), cs.len() - 1);
+    }
+}
+pub proof fn lemma_upto_prefix(cs: Seq<Seq<nat>>, cs2: Seq<Seq<nat>>, b: int)
+    requires 0 <= b <= cs.len(), b <= cs2.len(), forall|j: int| 0 <= j < b ==> cs[j] == cs2[j]
+    ensures upto(cs, b) == upto(cs2, b)
+    decreases b
+{
+    if b > 0 { lemma_upto_prefix(cs, cs2, b - 1); }
+}
+/// empty buckets contribute nothing
+pub proof fn lemma_upto_empty(cs: Seq<Seq<nat>>, lo: int, hi: int)
+    requires 0 <= lo <= hi <= cs.len(), forall|j: int| lo <= j < hi ==> (#[trigger] cs[j]).len() == 0
+    ensures upto(cs, hi) == upto(cs, lo)
+    decreases hi - lo
+{
+    if hi > lo { lemma_upto_empty(cs, lo, hi - 1); }
+}
+pub proof fn lemma_upto_mono(cs: Seq<Seq<nat>>, lo: int, hi: int)
+    requires 0 <= lo <= hi <= cs.len()
+    ensures upto(cs, lo) <= upto(cs, hi)
+    decreases hi - lo
+{
+    if hi > lo { lemma_upto_mono(cs, lo, hi - 1); }
+}
+/// k-th entry in iteration order (buckets ascending, chain order inside a bucket)
+pub open spec fn entry_at(cs: Seq<Seq<nat>>, b: int, i: int) -> nat { upto(cs, b) + i as nat }
+
+/// iterator state after `k` entries were yielded
+pub open spec fn iter_inv(w: MapW, n: int, ko: nat, bidx: int, remaining: nat, k: nat) -> bool {
+    &&& k <= total(w.cs) && remaining == total(w.cs) - k
+    &&& 0 <= bidx <= n
+    &&& ko == 0 ==> (bidx == 0 && k == 0) || (bidx == n && k == total(w.cs))
+    &&& ko != 0 ==> bidx >= 1 && exists|i: int| 0 <= i < w.cs[bidx - 1].len() && #[trigger] w.cs[bidx - 1][i] == ko && k == upto(w.cs, bidx - 1) + i + 1
+}
+} // verus!
+
+verus! {
+/// the scan from bucket `from` found the head `ko2` of bucket `to - 1` (or nothing): what that means for the chains
+pub proof fn lemma_iter_scan(m: MapB, w: MapW, from: int, to: int, ko2: nat)
+    requires map_ok(m, w), 0 <= from <= to <= m.n,
+        ko2 == 0 ==> to == m.n && all_empty(m.hb, from, to),
+        ko2 != 0 ==> to > from && all_empty(m.hb, from, to - 1) && ko2 == bucket(m.hb, to - 1),
+    ensures
+        ko2 == 0 ==> upto(w.cs, m.n) == upto(w.cs, from),
+        ko2 != 0 ==> upto(w.cs, to - 1) == upto(w.cs, from) && w.cs[to - 1].len() > 0 && w.cs[to - 1][0] == ko2 && upto(w.cs, to) <= total(w.cs),
+{
+    let hi = if ko2 == 0 { to } else { to - 1 };
+    assert forall|j: int| from <= j < hi implies (#[trigger] w.cs[j]).len() == 0 by {
+        assert(chain_ok(w.kw, bucket(m.hb, j), w.cs[j], j, m.n));
+        lemma_chain_head(w.kw, bucket(m.hb, j), w.cs[j], j, m.n);
+        assert(bucket(m.hb, j) == 0);
+    }
+    lemma_upto_empty(w.cs, from, hi);
+    if ko2 != 0 {
+        assert(chain_ok(w.kw, bucket(m.hb, to - 1), w.cs[to - 1], to - 1, m.n));
+        lemma_chain_head(w.kw, bucket(m.hb, to - 1), w.cs[to - 1], to - 1, m.n);
+        lemma_upto_mono(w.cs, to, m.n);
+        lemma_upto_total(w.cs);
+    }
+}
+} // verus!
